@@ -13,6 +13,7 @@ import XMT.Drv.C12
 import XMT.Drv.C13
 import XMT.Drv.C14
 import XMT.Drv.C15
+import XMT.Drv.C16
 import XMT.Drv.C17
 import XMT.Drv.C18
 import XMT.Drv.C19
@@ -35,6 +36,7 @@ def dispatch (line : String) : String :=
   | "C13" :: args => XMT.Drv.C13.handle args
   | "C14" :: args => XMT.Drv.C14.handle args
   | "C15" :: args => XMT.Drv.C15.handle args
+  | "C16" :: args => XMT.Drv.C16.handle args
   | "C17" :: args => XMT.Drv.C17.handle args
   | "C18" :: args => XMT.Drv.C18.handle args
   | "C19" :: args => XMT.Drv.C19.handle args
